@@ -3602,6 +3602,13 @@ class SharedLibraryShellCommand : public ExternalCommand {
   /// Additional arguments, as a string.
   std::vector<std::string> otherArgs;
 
+  virtual CommandSignature getSignature() const override {
+    return ExternalCommand::getSignature()
+        .combine(executable)
+        .combine(compilerStyle)
+        .combine(otherArgs);
+  }
+
   virtual void startExternalCommand(BuildSystem&, TaskInterface ti) override {
     return;
   }
